@@ -12,6 +12,7 @@ import (
 type mixW struct {
 	write, ingest, ingestExcise, excise, flush, compact, scan, reopen, wait int
 	snap, iter, ibatch, efos, ratchet, checkpoint, scanInternal, metrics    int
+	extIngest                                                               int // external files with synthetic suffixes (C09)
 	crash                                                                   int // main-line crashes (at most 3 per plan)
 	rangeKeys, masking                                                      bool
 	iterOpsPerStep                                                          int
@@ -113,7 +114,7 @@ func (g *gen) genMixed(nops int, w mixW) {
 	}
 	cats := []cat{{"write", w.write}, {"ingest", w.ingest}, {"ingestexcise", w.ingestExcise}, {"excise", w.excise}, {"flush", w.flush},
 		{"compact", w.compact}, {"scan", w.scan}, {"reopen", w.reopen}, {"wait", w.wait}, {"snap", w.snap}, {"iter", w.iter}, {"ibatch", w.ibatch},
-		{"efos", w.efos}, {"ratchet", w.ratchet}, {"checkpoint", w.checkpoint}, {"scaninternal", w.scanInternal}, {"metrics", w.metrics}, {"crash", w.crash}}
+		{"efos", w.efos}, {"ratchet", w.ratchet}, {"checkpoint", w.checkpoint}, {"scaninternal", w.scanInternal}, {"metrics", w.metrics}, {"crash", w.crash}, {"extingest", w.extIngest}}
 	ncrash := 0
 	total := 0
 	for _, c := range cats {
@@ -148,6 +149,48 @@ func (g *gen) genMixed(nops int, w mixW) {
 			g.add(g.ingestOp(w.rangeKeys, false))
 		case "ingestexcise":
 			g.add(g.ingestOp(w.rangeKeys, true))
+		case "extingest":
+			// an external (remote-backed) table with one key per prefix, all
+			// stored with old suffixes, surfaced - in most cases - under a
+			// newer synthetic suffix
+			n := 2 + g.r.IntN(5)
+			if n > len(g.pfx) {
+				n = len(g.pfx)
+			}
+			start := g.r.IntN(len(g.pfx) - n + 1)
+			o := DBOp{K: "extingest", Key: g.pfx[start], End: g.pfx[start+n-1] + "zz"}
+			if g.r.IntN(4) != 0 {
+				o.Suf = fmt.Sprintf("@%d", 12+g.r.IntN(20))
+			}
+			for _, p := range g.pfx[start : start+n] {
+				if g.r.IntN(4) == 0 {
+					continue
+				}
+				tag, vl := g.val()
+				o.Sub = append(o.Sub, DBOp{K: "set", Key: p + fmt.Sprintf("@%d", 1+g.r.IntN(6)), Val: tag, VLen: 8 + vl%300})
+			}
+			if len(o.Sub) > 0 {
+				g.add(o)
+				if w.masking && g.r.IntN(2) == 0 && len(g.iters) < 4 {
+					// a range key over the ingested span whose suffix lies between
+					// the stored and the surfaced suffixes, and a masking iterator
+					// (with and without the block-property filter) walked across it
+					rk := DBOp{K: "rkset", Key: o.Key, End: o.End, Suf: fmt.Sprintf("@%d", 7+g.r.IntN(5))}
+					rk.Val, rk.VLen = g.val()
+					rk.VLen = 8
+					g.add(DBOp{K: "batch", Mode: "direct", Sub: []DBOp{rk}})
+					id := g.newID()
+					g.add(DBOp{K: "iter", ID: id, IO: &IterOpts{KeyTypes: 2, Mask: "@11", MaskFilt: g.r.IntN(4) != 0}})
+					g.iters = append(g.iters, id)
+					g.add(DBOp{K: "iterop", ID: id, Mode: "first"})
+					for j := 4 + g.r.IntN(10); j > 0; j-- {
+						g.add(DBOp{K: "iterop", ID: id, Mode: "next"})
+					}
+					for j := g.r.IntN(6); j > 0; j-- {
+						g.add(DBOp{K: "iterop", ID: id, Mode: "prev"})
+					}
+				}
+			}
 		case "excise":
 			a, b := g.prefixSpan()
 			g.add(DBOp{K: "excise", Key: a, End: b})
